@@ -86,3 +86,21 @@ Theorem C01_helper_shapes : forall g j k,
     shape n (collect g) h k r1 r2.
 Proof. exact helper_shapes. Qed.
 Print Assumptions C01_helper_shapes.
+
+(* ---- parse() DECIDES membership ----
+   With the boolean termination condition term_ok (Parse/TermCheck.v, evaluated
+   by the harness on every emitted table set) there is a fuel for which the
+   model of parse() returns: it accepts exactly the sentences and rejects
+   exactly the non-sentences; no input makes it run for ever. *)
+From Lox Require Import Parse.TermCheck Parse.TermProofs.
+
+Theorem C01_parse_decides :
+  forall g tb c nterm eb discard F,
+    validate g tb c nterm = true ->
+    term_ok tb (nstates c) F = true ->
+    forall w, ordinary nterm w ->
+      exists fuel,
+        (exists s, parse tb eb false discard fuel (zs w) = Accept s /\ sentence g (tokens_of w)) \/
+        (exists s, parse tb eb false discard fuel (zs w) = Reject s /\ ~ sentence g (tokens_of w)).
+Proof. exact parse_decides. Qed.
+Print Assumptions C01_parse_decides.
